@@ -22,6 +22,7 @@ import (
 )
 
 type pkgInfo struct {
+	name  string // package name, qualifies the entries of known_funcs.txt
 	fset  *token.FileSet
 	files map[string]*ast.File // by base name
 	funcs map[string]*ast.FuncDecl
@@ -30,6 +31,21 @@ type pkgInfo struct {
 var facts = map[string]any{}
 
 func load(dir string) *pkgInfo {
+	p := loadRaw(dir)
+	if inl := normalisePkg(p, loadKnownFuncs()); len(inl) > 0 {
+		m, _ := facts["inlined_new_helpers"].(map[string]int)
+		if m == nil {
+			m = map[string]int{}
+		}
+		for k, v := range inl {
+			m[p.name+":"+k] += v
+		}
+		facts["inlined_new_helpers"] = m
+	}
+	return p
+}
+
+func loadRaw(dir string) *pkgInfo {
 	p := &pkgInfo{fset: token.NewFileSet(), files: map[string]*ast.File{}, funcs: map[string]*ast.FuncDecl{}}
 	ents, err := os.ReadDir(dir)
 	if err != nil {
@@ -45,6 +61,7 @@ func load(dir string) *pkgInfo {
 			fatal("parse %s: %v", n, err)
 		}
 		p.files[n] = f
+		p.name = f.Name.Name
 		for _, d := range f.Decls {
 			if fd, ok := d.(*ast.FuncDecl); ok {
 				p.funcs[funcKey(fd)] = fd
@@ -241,7 +258,14 @@ func main() {
 	repo := flag.String("repo", "/repo", "repository root")
 	out := flag.String("out", "/verif/lean/CM/Generated", "output directory for generated Lean files")
 	factsPath := flag.String("facts", "", "also write the facts as JSON here")
+	listOnly := flag.Bool("list-funcs", false, "print the function keys of the packages (to refresh known_funcs.txt) and exit")
 	flag.Parse()
+	if *listOnly {
+		for _, k := range listFuncs(loadRaw(*repo), loadRaw(filepath.Join(*repo, "internal/atomicfile"))) {
+			fmt.Println(k)
+		}
+		return
+	}
 	outDir = *out
 	os.MkdirAll(outDir, 0o755)
 	p := load(*repo)
